@@ -43,6 +43,7 @@ type c12In struct {
 	Segs  []int `json:"segs,omitempty"` // segment i holds Segs[i]+1 bytes
 	Fin   int   `json:"fin,omitempty"`  // 0 EOF, 1 EOF together with the last data, 2 an error
 	Sizes []int `json:"sizes,omitempty"`
+	Unit  int   `json:"unit,omitempty"` // Segs and Sizes count units of that many bytes (0: 1): segment i holds (Segs[i]+1)*Unit bytes, a Read has a buffer of Sizes[j]*Unit bytes
 	// call
 	NValues   int       `json:"nvalues,omitempty"`
 	Files     []c12File `json:"files,omitempty"`
@@ -66,6 +67,10 @@ type c12In struct {
 	RespFault int       `json:"resp_fault,omitempty"`  // the response body fails: 0 no, 1 reset (an error), 2 truncated (unexpected EOF), 3 stalls until the context ends
 	RespFaultAt int     `json:"resp_fault_at,omitempty"` // after that many bytes
 	RespFaultWithData bool `json:"resp_fault_with_data,omitempty"` // the failure is reported together with the last bytes
+	// the http.Client in use (call and deadline cases): 0 the runtime's own, 1 one given to NewWithClient, 2 ClientOperation.Client;
+	// ClientTimeoutMs is its Timeout (0: none; negative: none for net/http); it needs ClientKind 1 or 2
+	ClientKind      int   `json:"client_kind,omitempty"`
+	ClientTimeoutMs int64 `json:"client_timeout_ms,omitempty"`
 	// deadline
 	ParentMs int64 `json:"parent_ms,omitempty"` // -1: the caller's context has no deadline
 	RuntimeCtx bool `json:"runtime_ctx,omitempty"` // the caller's context is Runtime.Context, not ClientOperation.Context
@@ -84,6 +89,18 @@ func (in c12In) effTimeout() time.Duration {
 		return in.timeout()
 	}
 	return client.DefaultTimeout
+}
+func (in c12In) unit() int {
+	if in.Unit <= 1 {
+		return 1
+	}
+	return in.Unit
+}
+func (in c12In) clientTimeout() time.Duration {
+	if in.ClientKind == 0 {
+		return 0
+	}
+	return time.Duration(in.ClientTimeoutMs) * time.Millisecond
 }
 func (in c12In) respSize() int {
 	n := in.RespSize
@@ -160,13 +177,14 @@ func init() { register(c12{}) }
 func (c12) ID() string        { return "C12" }
 func (c12) CoqModule() string { return "Check_C12" }
 func (c12) Rule() string {
-	return "drain: scripted bodies (segment lists, ending in EOF / EOF with the last data / an error) x Read-size sequences incl. 0 and over-long; " +
+	return "drain: scripted bodies (segment lists, ending in EOF / EOF with the last data / an error; from a few bytes to 2 MiB, once 128 MiB, still unread at Close, given in units) x Read-size sequences incl. 0 and over-long; " +
 		"call: multipart requests with 0-3 form values and 1-3 upload sources (declared or sniffed, a failing Read placed at the sniff or at any copy chunk) x " +
 		"parameter error / auth writer none, ok, failing, asking for the body or not / URL error / transport failing after reading nothing, a little, everything / " +
 		"transport answering after reading nothing, a little, everything / response read, no consumer, reader failing / connection reuse on, off / a real http.Transport with nobody listening / a stalled transport ended by the request timeout; " +
 		"Runtime.Debug on/off (request and response dumped) / response body of a consumed, unknown or binary type, complete or failing (reset, truncated, stalled) at every offset; " +
 		"timed calls (stalled transport or stalled response body) under negative, tiny and ordinary request timeouts and caller deadlines shorter, longer, alone, already passed; " +
-		"deadline: caller deadline absent, on the operation or on the runtime x timeout 0, negative, tiny, ordinary. Non-trivial: every drain case with at least one segment, every call case, every deadline case."
+		"the http.Client in use (the runtime's own, NewWithClient, ClientOperation.Client) without or with a Timeout of its own (shorter than the bound, far longer, negative); responses of 200 KiB to 2 MiB under connection reuse; " +
+		"deadline: caller deadline absent, on the operation or on the runtime x timeout 0, negative, tiny, ordinary x the client's own Timeout. Non-trivial: every drain case with at least one segment, every call case, every deadline case."
 }
 
 func (c12) Decode(raw json.RawMessage) (any, error) {
@@ -224,7 +242,12 @@ func (f c12RTFunc) RoundTrip(r *http.Request) (*http.Response, error) { return f
 
 func c12RunDrain(in c12In) c12Obs {
 	var obs c12Obs
-	body := &c12Body{segs: append([]int(nil), in.Segs...), fin: in.Fin}
+	// the body produces no bytes, it only counts: a segment of MiB costs nothing
+	u := in.unit()
+	body := &c12Body{fin: in.Fin}
+	for _, sg := range in.Segs {
+		body.segs = append(body.segs, (sg+1)*u-1)
+	}
 	obs.Panicked, obs.Panic = recoverTo(func() {
 		tr := client.KeepAliveTransport(c12RTFunc(func(r *http.Request) (*http.Response, error) {
 			return &http.Response{StatusCode: 200, Body: body, Request: r}, nil
@@ -235,7 +258,7 @@ func c12RunDrain(in c12In) c12Obs {
 			panic(err)
 		}
 		for _, k := range in.Sizes {
-			n, e := resp.Body.Read(make([]byte, k))
+			n, e := resp.Body.Read(make([]byte, k*u))
 			code := 0
 			if e == io.EOF {
 				code = 1
@@ -295,6 +318,8 @@ func (c12SrcCT) ContentType() string { return "application/octet-stream" }
 
 var errC12Reset = errors.New("c12: connection reset while the response body was read")
 var errC12Cap = errors.New("c12: the stalled exchange was not ended by its deadline")
+var errC12Cancelled = errors.New("c12: request cancelled by the http.Client's own Timeout")
+var errC12WrongClient = errors.New("c12: the runtime's own transport was used although the operation names a client")
 
 // the response body: size bytes; with a fault the bytes before offset at are delivered, then every Read fails
 type c12RespBody struct {
@@ -302,6 +327,7 @@ type c12RespBody struct {
 	fault    int // 0 none, 1 reset, 2 truncated, 3 stalls until the context ends
 	withData bool
 	ctx      context.Context
+	cancel   <-chan struct{}
 	cap      time.Duration
 	pos      int32
 	closes   int32
@@ -324,6 +350,8 @@ func (b *c12RespBody) fail() error {
 	select {
 	case <-b.ctx.Done():
 		return b.ctx.Err()
+	case <-b.cancel:
+		return errC12Cancelled
 	case <-time.After(b.cap):
 		return errC12Cap
 	}
@@ -390,7 +418,6 @@ func c12RunCall(in c12In) c12Obs {
 	}
 	baseline := c12Goroutines()
 	host := "example.com"
-	r := client.New(host, "/", []string{"http"})
 	var respBody *c12RespBody
 	var reqBodyClosed int32
 	stub := c12RTFunc(func(req *http.Request) (*http.Response, error) {
@@ -405,6 +432,8 @@ func c12RunCall(in c12In) c12Obs {
 			select {
 			case <-req.Context().Done():
 				err = req.Context().Err()
+			case <-req.Cancel: // how net/http tells a RoundTripper of its own that Client.Timeout has passed
+				err = errC12Cancelled
 			case <-time.After(in.stallCap()):
 				err = errC12Cap
 			}
@@ -437,18 +466,41 @@ func c12RunCall(in c12In) c12Obs {
 			ct = "application/octet-stream"
 		}
 		respBody = &c12RespBody{size: in.respSize(), at: in.faultAt(), fault: in.RespFault, withData: in.RespFaultWithData,
-			ctx: req.Context(), cap: in.stallCap()}
+			ctx: req.Context(), cancel: req.Cancel, cap: in.stallCap()}
 		return &http.Response{StatusCode: 200, Status: "200 OK", Proto: "HTTP/1.1", ProtoMajor: 1, ProtoMinor: 1,
 			ContentLength: int64(in.respSize()),
 			Header:        http.Header{"Content-Type": {ct}}, Body: respBody, Request: req}, nil
 	})
-	r.Transport = stub
+	var transport http.RoundTripper = stub
 	if in.Real {
-		r = client.New("127.0.0.1:1", "/", []string{"http"})
-		r.Transport = &http.Transport{DisableKeepAlives: true}
+		host = "127.0.0.1:1"
+		transport = &http.Transport{DisableKeepAlives: true}
+	}
+	// the http.Client in use: the runtime's own, one handed to NewWithClient, one named by the operation
+	var r *client.Runtime
+	var opClient *http.Client
+	switch in.ClientKind {
+	case 1:
+		r = client.NewWithClient(host, "/", []string{"http"}, &http.Client{Transport: transport, Timeout: in.clientTimeout()})
+	case 2:
+		r = client.New(host, "/", []string{"http"})
+		r.Transport = c12RTFunc(func(req *http.Request) (*http.Response, error) {
+			if req.Body != nil {
+				_ = req.Body.Close()
+			}
+			return nil, errC12WrongClient
+		})
+		opClient = &http.Client{Transport: transport, Timeout: in.clientTimeout()}
+	default:
+		r = client.New(host, "/", []string{"http"})
+		r.Transport = transport
 	}
 	if in.KeepAlive {
-		r.EnableConnectionReuse()
+		if opClient != nil {
+			opClient.Transport = client.KeepAliveTransport(transport) // the caller's client: the caller's business
+		} else {
+			r.EnableConnectionReuse()
+		}
 	}
 	r.Debug = in.Debug
 	r.SetLogger(c12NoLog{})
@@ -495,7 +547,7 @@ func c12RunCall(in c12In) c12Obs {
 	op := &rt.ClientOperation{
 		ID: "up", Method: "POST", PathPattern: pattern, ProducesMediaTypes: []string{"application/json"},
 		ConsumesMediaTypes: []string{"multipart/form-data"}, Schemes: []string{"http"},
-		Params: writer, AuthInfo: auth,
+		Params: writer, AuthInfo: auth, Client: opClient,
 		Reader: rt.ClientResponseReaderFunc(func(resp rt.ClientResponse, _ rt.Consumer) (interface{}, error) {
 			if _, err := io.ReadFull(resp.Body(), make([]byte, c12ReaderNeeds)); err != nil {
 				return nil, err // the response is not complete
@@ -575,14 +627,26 @@ func c12RunCall(in c12In) c12Obs {
 
 func c12RunDeadline(in c12In) c12Obs {
 	var obs c12Obs
-	r := client.New("example.com", "/", []string{"http"})
 	var dl time.Time
 	var has bool
-	r.Transport = c12RTFunc(func(req *http.Request) (*http.Response, error) {
+	transport := c12RTFunc(func(req *http.Request) (*http.Response, error) {
 		dl, has = req.Context().Deadline()
 		return &http.Response{StatusCode: 200, Status: "200 OK", Proto: "HTTP/1.1", ProtoMajor: 1, ProtoMinor: 1,
 			Header: http.Header{"Content-Type": {"application/json"}}, Body: io.NopCloser(strings.NewReader("{}")), Request: req}, nil
 	})
+	var r *client.Runtime
+	var opClient *http.Client
+	switch in.ClientKind {
+	case 1:
+		r = client.NewWithClient("example.com", "/", []string{"http"}, &http.Client{Transport: transport, Timeout: in.clientTimeout()})
+	case 2:
+		r = client.New("example.com", "/", []string{"http"})
+		r.Transport = c12RTFunc(func(req *http.Request) (*http.Response, error) { return nil, errC12WrongClient })
+		opClient = &http.Client{Transport: transport, Timeout: in.clientTimeout()}
+	default:
+		r = client.New("example.com", "/", []string{"http"})
+		r.Transport = transport
+	}
 	start := time.Now()
 	op := &rt.ClientOperation{
 		ID: "d", Method: "GET", PathPattern: "/d", ProducesMediaTypes: []string{"application/json"},
@@ -591,6 +655,7 @@ func c12RunDeadline(in c12In) c12Obs {
 			return req.SetTimeout(in.timeout())
 		}),
 		Reader: rt.ClientResponseReaderFunc(func(rt.ClientResponse, rt.Consumer) (interface{}, error) { return nil, nil }),
+		Client: opClient,
 	}
 	if in.ParentMs >= 0 {
 		ctx, cancel := context.WithDeadline(context.Background(), start.Add(time.Duration(in.ParentMs)*time.Millisecond))
@@ -633,8 +698,9 @@ func (c12) Coq(inAny any, obsAny any) string {
 	switch in.Kind {
 	case "drain":
 		fin := []string{"FEof", "FEofWithData", "FErr"}[in.Fin]
-		log := coqList(obs.Log, func(e [2]int) string { return coqPair(coqNatBig(e[0]), coqNat(e[1])) })
-		return fmt.Sprintf("CDrain %s %s %s %s %d %s %s", c12Nats(in.Segs), fin, c12Nats(in.Sizes), log, obs.Closes, coqNatBig(obs.Left), coqBool(obs.Ended))
+		// segments and Read sizes in units, what was observed in bytes (binary numbers: a body may hold MiB)
+		log := coqList(obs.Log, func(e [2]int) string { return coqPair(coqN(uint64(e[0])), coqNat(e[1])) })
+		return fmt.Sprintf("CDrain %s %s %s %s %s %d %s %s", coqN(uint64(in.unit())), c12Nats(in.Segs), fin, c12Nats(in.Sizes), log, obs.Closes, coqN(uint64(obs.Left)), coqBool(obs.Ended))
 	case "deadline":
 		parent, observed := "None", "None"
 		if in.ParentMs >= 0 {
@@ -643,7 +709,7 @@ func (c12) Coq(inAny any, obsAny any) string {
 		if obs.HasDeadline {
 			observed = "(Some " + coqZ(obs.DeadlineNs) + ")"
 		}
-		return fmt.Sprintf("CDeadline %s %s %s %s", parent, coqZ(in.timeout().Nanoseconds()), observed, coqZ(obs.DurationNs))
+		return fmt.Sprintf("CDeadline %s %s %s %s %s", parent, coqZ(in.timeout().Nanoseconds()), coqZ(in.clientTimeout().Nanoseconds()), observed, coqZ(obs.DurationNs))
 	}
 	files := coqList(in.Files, func(f c12File) string {
 		return fmt.Sprintf("(mkfp %s %s %s)", coqBool(f.Declared), coqBool(f.SniffOK), coqList(f.Chunks, coqBool))
@@ -691,12 +757,12 @@ func (c12) Coq(inAny any, obsAny any) string {
 	if in.CallParentMs != 0 {
 		parent = "(Some " + coqZ(in.CallParentMs*1000000) + ")"
 	}
-	tm := fmt.Sprintf("(mktm %s %s %s %s)", coqBool(in.timed()), parent, coqZ(in.effTimeout().Nanoseconds()), coqZ(obs.ElapsedNs))
+	tm := fmt.Sprintf("(mktm %s %s %s %s %s)", coqBool(in.timed()), parent, coqZ(in.effTimeout().Nanoseconds()), coqZ(in.clientTimeout().Nanoseconds()), coqZ(obs.ElapsedNs))
 	if !in.timed() {
-		tm = "(mktm false None 0%Z 0%Z)"
+		tm = "(mktm false None 0%Z 0%Z 0%Z)"
 	}
 	o := fmt.Sprintf("(mkco %s %s %s %d %d %s %s %s)", coqBool(obs.OK), c12Nats(obs.FileCloses), coqBool(obs.GoroutineGone),
-		obs.RespOpened, obs.RespCloses, coqNatBig(obs.RespLeft), coqBool(obs.ReqBodyClosed), coqBool(obs.InTime && !obs.Panicked))
+		obs.RespOpened, obs.RespCloses, coqN(uint64(obs.RespLeft)), coqBool(obs.ReqBodyClosed), coqBool(obs.InTime && !obs.Panicked))
 	return fmt.Sprintf("CCall %d %s %s %s %s %s", in.NValues, files, sc, coqBool(in.KeepAlive), o, tm)
 }
 
@@ -722,7 +788,24 @@ func (c12) Category(inAny any, obsAny any) (string, bool) {
 	in := inAny.(c12In)
 	switch in.Kind {
 	case "drain":
-		return "drain/" + []string{"eof", "eof-with-data", "error"}[in.Fin], len(in.Segs) > 0
+		// how much was still unread when Close was called
+		total := 0
+		for _, sg := range in.Segs {
+			total += (sg + 1) * in.unit()
+		}
+		for _, e := range obsAny.(c12Obs).Log {
+			total -= e[0]
+		}
+		size := "unread<64K"
+		switch {
+		case total >= 2<<20:
+			size = "unread>=2M"
+		case total >= 256<<10:
+			size = "unread>=256K"
+		case total >= 64<<10:
+			size = "unread>=64K"
+		}
+		return "drain/" + []string{"eof", "eof-with-data", "error"}[in.Fin] + "/" + size, len(in.Segs) > 0
 	case "deadline":
 		p := "parent"
 		if in.ParentMs < 0 {
@@ -740,7 +823,7 @@ func (c12) Category(inAny any, obsAny any) (string, bool) {
 		case d < time.Millisecond:
 			t = "tiny-timeout"
 		}
-		return "deadline/" + p + "/" + t, true
+		return "deadline/" + p + "/" + t + c12ClientClass(in), true
 	}
 	if in.ParamErr {
 		return "call/param-error", true
@@ -783,6 +866,10 @@ func (c12) Category(inAny any, obsAny any) (string, bool) {
 	if in.Debug {
 		t += "/debug"
 	}
+	if !in.Fail && !in.Stall && !in.Real && in.respSize() >= 200<<10 {
+		t += "/resp-big"
+	}
+	t += c12ClientClass(in)
 	rd := "all"
 	if in.Reads == 0 {
 		rd = "none"
@@ -801,6 +888,28 @@ func (c12) Category(inAny any, obsAny any) (string, bool) {
 		}
 	}
 	return "call/" + a + "/" + t + "/body-" + rd + "/" + failing, true
+}
+
+// which http.Client is in use and how its own Timeout relates to the request timeout
+func c12ClientClass(in c12In) string {
+	if in.ClientKind == 0 {
+		return ""
+	}
+	c := []string{"", "/client-of-runtime", "/client-of-operation"}[in.ClientKind]
+	ct, rt := in.clientTimeout(), in.timeout()
+	if in.Kind == "call" {
+		rt = in.effTimeout()
+	}
+	switch {
+	case ct == 0:
+	case ct < 0:
+		c += "+negative-client-timeout"
+	case rt <= 0 || ct > rt:
+		c += "+longer-client-timeout"
+	default:
+		c += "+shorter-client-timeout"
+	}
+	return c
 }
 
 // which bound ends a timed call
@@ -882,6 +991,16 @@ func (c12) Gen(r *rand.Rand, tier string, i int) any {
 		for j := r.Intn(7); j > 0; j-- {
 			in.Sizes = append(in.Sizes, []int{0, 1, 2, 5, 10, 100, 3000}[r.Intn(7)])
 		}
+		if r.Intn(3) == 0 { // a big body: hundreds of KiB to MiB (now and then more) still unread at Close
+			in.Unit = []int{1024, 1024, 4096, 1000, 4099, 65536}[r.Intn(6)]
+			in.Segs, in.Sizes = nil, nil
+			for j := 1 + r.Intn(4); j > 0; j-- {
+				in.Segs = append(in.Segs, []int{0, 15, 63, 199, 254, 255, 256, 300, 511, 1023, 2047}[r.Intn(11)])
+			}
+			for j := r.Intn(4); j > 0; j-- {
+				in.Sizes = append(in.Sizes, []int{0, 1, 1, 8, 32, 256}[r.Intn(6)])
+			}
+		}
 		return in
 	case k < 5:
 		in := c12In{Kind: "deadline", ParentMs: -1, Debug: r.Intn(4) == 0}
@@ -896,6 +1015,10 @@ func (c12) Gen(r *rand.Rand, tier string, i int) any {
 			in.TimeoutNs = c12TimeoutsNs[r.Intn(len(c12TimeoutsNs))]
 		case 2: // any sign, any magnitude
 			in.TimeoutNs = (r.Int63n(2_000_000) - 1_000_000) * []int64{1, 1000, 1_000_000}[r.Intn(3)]
+		}
+		if r.Intn(2) == 0 { // an http.Client of the caller, with or without a Timeout of its own
+			in.ClientKind = 1 + r.Intn(2)
+			in.ClientTimeoutMs = []int64{0, 1, 50, 1800_000, 3600_000, 5400_000, 36000_000, -3}[r.Intn(8)]
 		}
 		return in
 	}
@@ -921,6 +1044,21 @@ func (c12) Gen(r *rand.Rand, tier string, i int) any {
 	} else if r.Intn(25) == 0 {
 		in.Stall, in.Reads = true, 0
 		c12SetBound(&in, r.Intn(1000))
+	}
+	if !in.Fail && in.RespFault != 3 && r.Intn(8) == 0 { // a big response of which the reader takes 100 bytes
+		in.RespSize = []int{200 << 10, 300_000, 1 << 20, 2<<20 + 17}[r.Intn(4)]
+		if in.RespFault != 0 {
+			in.RespFaultAt = r.Intn(in.RespSize + 1)
+		}
+	}
+	if r.Intn(3) == 0 { // an http.Client of the caller
+		in.ClientKind = 1 + r.Intn(2)
+		if in.timed() {
+			// its own Timeout: none, shorter than every bound of c12TimedBounds that lies ahead, far longer, negative
+			in.ClientTimeoutMs = []int64{0, 8, 3600_000, 3600_000, -5}[r.Intn(5)]
+		} else {
+			in.ClientTimeoutMs = []int64{0, 3600_000, 36000_000, -5}[r.Intn(4)]
+		}
 	}
 	return in
 }
@@ -1015,6 +1153,67 @@ func (c12) Enumerate(tier string) []any {
 					}
 					out = append(out, c12In{Kind: "call", Files: progs[1], Reads: -1, Debug: dbg, KeepAlive: ka, Resp: resp, Binary: bin, RespSize: 100})
 					out = append(out, c12In{Kind: "call", NValues: 1, Files: progs[3], Reads: 0, Debug: dbg, KeepAlive: ka, Resp: resp, Binary: bin, Auth: 1})
+				}
+			}
+		}
+	}
+	// big bodies: 200 KiB ... 2 MiB (and once 128 MiB) still unread at Close, in one segment or several, around 256 KiB
+	// to the unit; the caller reads nothing, a little, or a lot first
+	for _, unit := range []int{1024, 4096, 65536} {
+		for _, segs := range [][]int{{199}, {254}, {255}, {256}, {511}, {2047}, {63, 63, 63, 63, 63}, {1023, 0, 1023}} {
+			if unit == 65536 && len(segs) == 1 && segs[0] != 2047 && segs[0] != 255 {
+				continue
+			}
+			for fin := 0; fin < 3; fin++ {
+				for _, sizes := range [][]int{nil, {1}, {0}, {8, 8}, {300}} {
+					out = append(out, c12In{Kind: "drain", Unit: unit, Segs: segs, Fin: fin, Sizes: sizes})
+				}
+			}
+		}
+	}
+	// ... and as the response of a call with connection reuse: the reader takes 100 bytes, Submit closes the body
+	for _, size := range []int{200 << 10, 256<<10 + 99, 256<<10 + 100, 256<<10 + 101, 1 << 20, 2<<20 + 17} {
+		for _, dbg := range []bool{false, true} {
+			for resp := 0; resp < 3; resp++ {
+				out = append(out, c12In{Kind: "call", Files: progs[0], Reads: -1, Debug: dbg, KeepAlive: true, Resp: resp, RespSize: size, Binary: size%2 == 1})
+			}
+		}
+		// the body fails far behind what the reader takes: the drain meets the fault
+		out = append(out, c12In{Kind: "call", Files: progs[1], Reads: -1, KeepAlive: true, RespSize: size, RespFault: 1 + size%2, RespFaultAt: size - 1000, ClientKind: 2})
+	}
+	// the http.Client in use x its own Timeout (none, shorter than the bound, far longer, negative) x what bounds the call
+	// (request timeout alone, caller deadline alone, the shorter of both either way round, the default timeout) x where
+	// the exchange stalls (before the response, in its body). The call has to be back by the deadline of the request
+	// timeout and the context; a shorter client Timeout may end it earlier.
+	for kind := 1; kind <= 2; kind++ {
+		for _, ct := range []int64{0, 8, 3600_000, -5} {
+			for _, k := range []int{5, 6, 7, 9, 10, 11} { // 30 ms; 60 ms; deadline 40 ms; default timeout + deadline 25 ms; 1 h + deadline 30 ms; 20 ms + deadline 1 h
+				for _, body := range []bool{false, true} {
+					in := c12In{Kind: "call", NValues: k % 2, Files: progs[k%2], ClientKind: kind, ClientTimeoutMs: ct, KeepAlive: (k+kind)%2 == 0}
+					if body {
+						in.Reads, in.RespSize, in.RespFault, in.RespFaultAt = -1, 130, 3, 50
+					} else {
+						in.Stall, in.Fail = true, true
+					}
+					c12SetBound(&in, k)
+					out = append(out, in)
+				}
+			}
+		}
+		// untimed calls through that client
+		for _, ct := range []int64{0, 3600_000} {
+			for resp := 0; resp < 3; resp++ {
+				for _, ka := range []bool{false, true} {
+					out = append(out, c12In{Kind: "call", NValues: 1, Files: progs[2], Reads: -1, Resp: resp, KeepAlive: ka, ClientKind: kind, ClientTimeoutMs: ct, Auth: 1, Asks: resp == 1})
+					out = append(out, c12In{Kind: "call", Files: progs[0], Fail: true, Reads: 1, KeepAlive: ka, ClientKind: kind, ClientTimeoutMs: ct})
+				}
+			}
+		}
+		// the deadline the transport sees
+		for _, p := range []int64{-1, 0, 7200_000} {
+			for _, t := range []int64{0, -1, 1_000_000, 3600_000_000_000, 9000_000_000_000} {
+				for _, ct := range []int64{0, 1, 50, 1800_000, 5400_000, 36000_000, -3} {
+					out = append(out, c12In{Kind: "deadline", ParentMs: p, TimeoutNs: t, ClientKind: kind, ClientTimeoutMs: ct, RuntimeCtx: p >= 0 && ct%2 == 0})
 				}
 			}
 		}
